@@ -11,7 +11,12 @@ import operator
 import numpy as np
 
 from mc import observe, refmodel as R, spaces as S
-from mc.util import attempt, short
+from mc.util import attempt, short, digest
+
+
+def digest_int(obj):
+    return int(digest(obj)[:8], 16)
+
 
 PROPERTY = "C01"
 LEVEL = "exploration"
@@ -22,7 +27,7 @@ RULE = (
     "unary - abs() .abs() .sign()) x (value assignment family) with rotating operand storage "
     "provenance (C, Fortran, strided view, transposed buffer); a case is non-trivial when an operand "
     "has a dimension with >= 2 items, so that matching by label is observable; every case is distinct "
-    "by construction (no configuration is generated twice); for 5 of the assignment families every case is also run in history mode: decoy arrays of the same dims went through in-place abs / sign / cumsum and the same operator, the operator was applied to the operands once, and the operands were overwritten in place before the operator is applied again"
+    "by construction (no configuration is generated twice); for 5 of the assignment families every case is also run in history mode: decoy arrays of the same dims went through in-place abs / sign / cumsum and the same operator, the operator was applied to the operands once, and the operands were overwritten in place before the operator is applied again; for 2 families every case is also run in genesis mode: the operands are Parameter / Flow / StockArray instances or deepcopy / pickle / copy / model_copy / trivial cast / trivial slice results (rotating), over dimensions whose item labels collide with letters, names, each other, the empty string and integers; plus every ordered pair of arrangements of three large dimensions (12, 33, 5 items)"
 )
 ASSUMPTIONS = [
     "values range over finite separating alphabets (distinct powers of two, positional codes, "
@@ -53,6 +58,7 @@ QUICK_ASSIGN = ("pow2", "signed", "primes", "halfpow", "base", "intx", "inty", "
 TOL = 1e-14
 HISTORY_ASSIGN = ("base", "primes", "halfpow", "signed", "intx")
 HISTORY_ASSIGN_QUICK = ("halfpow", "intx")
+GENESIS_ASSIGN = ("base", "primes")
 
 
 def _ops():
@@ -118,6 +124,10 @@ def units(tier, seed):
         for lx in arrs:
             for i in range(0, len(arrs), 22):
                 out.append(dict(pattern=pat, lx=lx, lys=arrs[i : i + 22], assigns=assigns))
+    # large dimensions (12, 33 and 5 items): every ordered pair of arrangements of the subsets of {a, b, d}
+    arrs3 = ["".join(a) for a in S.arrangements("abd")]
+    for lx in arrs3:
+        out.append(dict(pattern="big", lx=lx, lys=arrs3, assigns=("base", "halfpow2"), modes=("fresh",)))
     if tier == "thorough":  # five dimensions, every ordered pair of the 326 arrangements
         arrs5 = ["".join(a) for a in S.arrangements(S.LETTERS[:5])]
         for pat in ("all2", "2323"):
@@ -135,7 +145,7 @@ def run_case(pattern, lx, ly, assign, opname, mode="fresh"):
     the same dims went through in-place abs / sign / cumsum and through the same operator first, the
     operator was already applied to these very operands once, and the operands' values were then
     overwritten in place (values doubled: exact) before the operator is applied again."""
-    items = S.items_for(pattern)
+    items = S.items_for(pattern, family="tricky" if mode == "genesis" else "std")
     xmk, ymk, groups, (px, py) = ASSIGN[assign]
     group, impl, model, tol = OPS[opname]
     fx, fy = xmk(lx, items), ymk(ly, items)
@@ -146,6 +156,16 @@ def run_case(pattern, lx, ly, assign, opname, mode="fresh"):
     Y = S.flodym_array(ly, items, fy, py)
     case = dict(pattern=pattern, lx=lx, ly=ly, assign=assign, op=opname, mode=mode)
     decoy_snap = None
+    if mode == "genesis":
+        # operands that are instances of the subclasses, or copies / pickle round trips / trivial casts of
+        # the constructed array, over dimensions whose item labels collide with letters, names and each other
+        h = digest_int((pattern, lx, ly, opname))
+        gx, gy = S.GENESIS[h % len(S.GENESIS)], S.GENESIS[(h // 16) % len(S.GENESIS)]
+        case["genesis"] = [gx, gy]
+        st0, pair = attempt(lambda: (S.regenesis(X, gx), S.regenesis(Y, gy)))
+        if st0 == "raised":
+            return "fail", dict(case=case, tags=dict(op=opname, kind="genesis-raised"), what=f"building the operands as {gx} / {gy} raised {pair}")
+        X, Y = pair
     if mode == "history":
         fz = S.val_base(3, 5)(lx, items)
         Z = S.flodym_array(lx, items, lambda lab: -fz(lab), "C")
@@ -226,14 +246,16 @@ def run_unit(u):
                     continue
                 if group in Y_INDEPENDENT and ly != ():
                     continue  # scalar / unary forms do not involve y: run them once per x arrangement
-                for mode in ("fresh", "history"):
+                for mode in u.get("modes", ("fresh", "history", "genesis")):
+                    if mode == "genesis" and (assign not in GENESIS_ASSIGN or pattern == "big"):
+                        continue
                     if mode == "history" and assign not in (HISTORY_ASSIGN if len(u["assigns"]) > len(QUICK_ASSIGN) else HISTORY_ASSIGN_QUICK):
                         continue
                     oc, f = run_case(pattern, "".join(lx), "".join(ly), assign, opname, mode)
                     res["evals"] += 1
                     nt = nontriv_pair if group not in Y_INDEPENDENT else any(len(items[l]) >= 2 for l in lx)
                     res["nontrivial"] += 1 if nt else 0
-                    key = oc + ("" if mode == "fresh" else " (with history)")
+                    key = oc + {"fresh": "", "history": " (with history)", "genesis": " (subclass / copied operands, colliding labels)"}[mode]
                     res["outcomes"][key] = res["outcomes"].get(key, 0) + 1
                     if f and len(res["fails"]) < 25:
                         res["fails"].append(f)
